@@ -1232,10 +1232,13 @@ def forced_response(
             # T[-1] - T[0] < sys_dt * decimation * (n_steps - 1)
             # due to rounding errors.
             # https://github.com/scipyscipy/blob/v1.6.1/scipy/signal/ltisys.py#L3462
-            scipy_out_samples = int(np.floor(spT[-1] / sys_dt)) + 1
-            if scipy_out_samples < n_steps:
-                # parentheses: order of evaluation is important
-                spT[-1] = spT[-1] * (n_steps / (spT[-1] / sys_dt + 1))
+            n_samples = (n_steps - 1) * int(round(dt / sys_dt)) + 1
+            if int(np.floor(spT[-1] / sys_dt)) + 1 < n_samples:
+                # move the end time to the smallest value for which dlsim
+                # computes the required number of samples
+                spT[-1] = sys_dt * (n_samples - 1)
+                while int(np.floor(spT[-1] / sys_dt)) + 1 < n_samples:
+                    spT[-1] = np.nextafter(spT[-1], np.inf)
 
         else:
             sys_dt = dt         # For unspecified sampling time, use time incr
